@@ -837,14 +837,16 @@ pub struct Speller<'t, 'd> {
 	pub used: HashSet<&'static str>,
 	/// allow leaving out a decimal's `scale` when it is 0
 	pub omit_zero_scale: bool,
+	/// allow `"name": ".X"` for definitions in the null namespace
+	pub leading_dot_definitions: bool,
 }
 
 impl<'t, 'd> Speller<'t, 'd> {
 	pub fn plain() -> Speller<'static, 'static> {
-		Speller { tape: None, noise: false, used: HashSet::new(), omit_zero_scale: false }
+		Speller { tape: None, noise: false, used: HashSet::new(), omit_zero_scale: false, leading_dot_definitions: false }
 	}
 	pub fn with_tape(tape: &'t mut Tape<'d>, noise: bool) -> Self {
-		Speller { tape: Some(tape), noise, used: HashSet::new(), omit_zero_scale: true }
+		Speller { tape: Some(tape), noise, used: HashSet::new(), omit_zero_scale: true, leading_dot_definitions: true }
 	}
 	fn below(&mut self, n: usize) -> usize {
 		match &mut self.tape {
@@ -941,7 +943,11 @@ impl<'t, 'd> Speller<'t, 'd> {
 						}
 					} else if ns.is_none() {
 						// must restore null namespace if enclosing is some
-						if enclosing.is_some() {
+						if self.leading_dot_definitions && self.below(4) == 0 {
+							// a dotted name whose namespace part is empty designates the null namespace
+							self.used.insert("name-leading-dot");
+							attrs.push(("name".into(), json_str(&format!(".{simple}"))));
+						} else if enclosing.is_some() {
 							self.used.insert("ns-empty-reset");
 							attrs.push(("name".into(), json_str(simple)));
 							attrs.push(("namespace".into(), json_str("")));
